@@ -35,6 +35,14 @@ NAMES = 'abcde'
 UNIT = 'zope.testrunner.layer.UnitTests'
 
 
+def _one_cpu_filter(case):
+    return case[0] in ('twins', 'bigworld') or (case[0] == 'e2e' and case[1] <= 2)
+
+
+# the number of usable CPUs is part of the environment
+ENV_PASSES = [{'name': 'one usable CPU', 'argv': [], 'env': {'VT_ONE_CPU': '1', 'VT_NPROC': '2'}, 'filter': _one_cpu_filter}]
+
+
 def canonical(g, perm):
     """Is position order the smallest-name-first topological order of the
     labelled graph (g in topological numbering, node i named NAMES[perm[i]])?"""
